@@ -100,6 +100,7 @@ RefFull(b) ==
 RefShape(shape, inner, arity) ==
     CASE shape = "top" -> inner
       [] shape = "subquery-from" -> "SELECT \"sq\".\"a\" FROM (" \o inner \o ") AS \"sq\" ORDER BY 1"
+      [] shape = "subquery-from-topn" -> "SELECT \"sq\".\"a\" FROM (" \o inner \o ") AS \"sq\" LIMIT 2"
       [] shape = "subquery-in" -> "SELECT \"ot\".\"k\" FROM \"ot\" WHERE (\"ot\".\"k\" IN (" \o inner \o ")) ORDER BY 1"
       [] shape = "union" -> inner \o " UNION SELECT \"ot\".\"k\" FROM \"ot\""
       [] shape = "intersect" -> inner \o " INTERSECT SELECT \"ot\".\"k\" FROM \"ot\""
